@@ -24,7 +24,7 @@ import numpy as np
 from numpy.typing import NDArray
 
 from ..docstrings import document_load_one
-from ..utils import LineIterator
+from ..utils import LineIterator, LoadError
 
 __all__ = ()
 
@@ -32,7 +32,7 @@ __all__ = ()
 PATTERNS = ["*.out"]
 
 
-@document_load_one("Orca output", ["atcoords", "atnums", "energy", "moments", "extra"])
+@document_load_one("Orca output", ["atcoords", "atnums"], ["energy", "moments", "extra"])
 def load_one(lit: LineIterator) -> dict:
     """Do not edit this docstring. It will be overwritten."""
     result = {}
@@ -62,6 +62,8 @@ def load_one(lit: LineIterator) -> dict:
             words = line.split()
             dipole = np.array([float(words[4]), float(words[5]), float(words[6])])
             result["moments"] = {(1, "c"): dipole}
+    if "atcoords" not in result:
+        raise LoadError("No geometry of an ORCA calculation was found in this file.", lit)
     return result
 
 
